@@ -123,3 +123,1057 @@ Proof.
   assert (E : (8 * N.of_nat (length (pack w l)) = N.of_nat (length l) * w + N.of_nat pad)%N) by lia.
   lia.
 Qed.
+Lemma skipn_add {A} : forall p (l : list A) a, skipn a (skipn p l) = skipn (p + a) l.
+Proof.
+  induction p as [|p IH]; intros l a; [reflexivity|].
+  destruct l as [|x l]; [rewrite !skipn_nil; reflexivity|]. cbn [skipn plus]. apply IH.
+Qed.
+
+Lemma firstn_skipn_add {A} : forall (l : list A) p a b,
+  firstn a (skipn p l) ++ firstn b (skipn (p + a) l) = firstn (a + b) (skipn p l).
+Proof.
+  intros l p a b. rewrite <- (firstn_skipn a (skipn p l)) at 2.
+  destruct (le_lt_dec a (length (skipn p l))) as [H|H].
+  - replace (a + b)%nat with (length (firstn a (skipn p l)) + b)%nat by (rewrite firstn_length; lia).
+    rewrite firstn_app_len. f_equal. f_equal. rewrite skipn_add. reflexivity.
+  - rewrite (firstn_all2 (n := a)) by lia.
+    rewrite skipn_length in H.
+    rewrite (skipn_all2 (n := p + a)) by lia. rewrite firstn_nil, app_nil_r.
+    rewrite (skipn_all2 (n := a)) by (rewrite skipn_length; lia). rewrite app_nil_r.
+    rewrite firstn_all2 by (rewrite skipn_length; lia). reflexivity.
+Qed.
+
+Lemma firstn_splice_prefix {A} : forall (a x c : list A), firstn (length a + length x) (a ++ x ++ c) = a ++ x.
+Proof.
+  intros. rewrite firstn_app_len. f_equal.
+  replace (length x) with (length x + 0)%nat by lia. rewrite firstn_app_len. cbn. apply app_nil_r.
+Qed.
+
+Lemma fp_u32_small : forall x, (x < 4294967296)%N -> fp_u32 x = x.
+Proof. intros. unfold fp_u32. apply N.mod_small. assumption. Qed.
+
+Section Writer.
+Variables (w spd : N).
+Hypothesis Hw : (0 < w)%N.
+Hypothesis Hspd : (0 < spd)%N.
+Hypothesis Hmul : ((spd * w) mod 8 = 0)%N.
+Hypothesis Hbnd : (spd * w + 7 < 4294967296)%N.
+
+Definition blk_bits (b : Z * N * list N) : list bool :=
+  let '(_, cnt, p) := b in firstn (N.to_nat (cnt * w)) (bc_bits p).
+Definition stream_bits (st : fp_state) : list bool :=
+  flat_map blk_bits (fp_blocks st) ++ firstn (N.to_nat (fp_ec st * w)) (bc_bits (fp_buf st)).
+Definition fp_count (st : fp_state) : N := (N.of_nat (length (fp_blocks st)) * spd + fp_ec st)%N.
+
+Definition full_blocks (first : Z) (blocks : list (Z * N * list N)) : Prop :=
+  forall k ts cnt p, nth_error blocks k = Some (ts, cnt, p) ->
+    ts = (first + Z.of_nat k * Z.of_N spd)%Z /\ cnt = spd /\
+    (8 * N.of_nat (length p) = spd * w)%N /\ bytes_ok p.
+
+Record Inv (first : Z) (st : fp_state) : Prop := {
+  inv_open : fp_open st = true;
+  inv_first : fp_first st = first;
+  inv_ec : (fp_ec st < spd)%N;
+  inv_buf : (8 * N.of_nat (length (fp_buf st)) = spd * w)%N;
+  inv_ok : bytes_ok (fp_buf st);
+  inv_ts : fp_ts st = (first + Z.of_nat (length (fp_blocks st)) * Z.of_N spd)%Z;
+  inv_blocks : full_blocks first (fp_blocks st) }.
+
+Lemma spd_lt32 : (spd < 4294967296)%N.
+Proof. assert (spd * 1 <= spd * w)%N by (apply N.mul_le_mono_l; lia). lia. Qed.
+
+Lemma full_blocks_snoc : forall first blocks p,
+  full_blocks first blocks -> (8 * N.of_nat (length p) = spd * w)%N -> bytes_ok p ->
+  full_blocks first (blocks ++ [((first + Z.of_nat (length blocks) * Z.of_N spd)%Z, spd, p)]).
+Proof.
+  intros first blocks p Hf Hl Hp k ts cnt q Hk.
+  destruct (lt_dec k (length blocks)) as [Hlt|Hge].
+  - rewrite nth_error_app1 in Hk by exact Hlt. eapply Hf; eauto.
+  - rewrite nth_error_app2 in Hk by lia.
+    destruct (k - length blocks)%nat as [|m] eqn:E; cbn in Hk.
+    + inversion Hk; subst. replace k with (length blocks) by lia. auto.
+    + destruct m; discriminate.
+Qed.
+
+(* wr_data on a full block buffer *)
+Lemma wr_data_full : forall st, fp_ec st = spd -> (8 * N.of_nat (length (fp_buf st)) = spd * w)%N ->
+  fp_wr_data w spd st =
+  FP_ok {| fp_open := fp_open st; fp_first := fp_first st; fp_ts := (fp_ts st + Z.of_N spd)%Z; fp_ec := 0;
+           fp_buf := fp_buf st; fp_blocks := fp_blocks st ++ [(fp_ts st, spd, fp_buf st)] |}.
+Proof.
+  intros st Hec Hl. unfold fp_wr_data. rewrite Hec.
+  destruct (N.eqb_spec spd 0); [lia|].
+  rewrite (fp_u32_small (spd * w)) by lia. rewrite (fp_u32_small (spd * w + 7)) by lia.
+  rewrite land7, Hmul. cbn [N.eqb].
+  assert (Hdl : ((spd * w + 7) / 8 = N.of_nat (length (fp_buf st)))%N) by lia.
+  rewrite Hdl. rewrite N.leb_refl. rewrite Nat2N.id, firstn_all. reflexivity.
+Qed.
+
+Lemma wr_inner_spec : forall fuel st first src src_bit n,
+  Inv first st -> bytes_ok src -> (N.to_nat n <= fuel)%nat ->
+  (src_bit + n * w <= 8 * N.of_nat (length src))%N ->
+  exists st', fp_wr_inner fuel w spd st src src_bit n = FP_ok st' /\ Inv first st' /\
+    stream_bits st' = stream_bits st ++ firstn (N.to_nat (n * w)) (skipn (N.to_nat src_bit) (bc_bits src)) /\
+    fp_count st' = (fp_count st + n)%N.
+Proof.
+  induction fuel as [|fuel IH]; intros st first src src_bit n HI Hsrc Hfuel Hb.
+  - assert (n = 0%N) by lia. subst n. exists st. cbn [fp_wr_inner N.eqb].
+    split; [reflexivity|]. split; [exact HI|]. split; [|lia].
+    cbn [N.mul N.to_nat firstn]. rewrite app_nil_r. reflexivity.
+  - cbn [fp_wr_inner]. destruct (N.eqb_spec n 0) as [->|Hn0].
+    + exists st. split; [reflexivity|]. split; [exact HI|]. split; [|lia].
+      cbn [N.mul N.to_nat firstn]. rewrite app_nil_r. reflexivity.
+    + destruct HI as [Hopen Hfirst Hec Hbuf Hok Hts Hblocks].
+      pose proof spd_lt32 as H32.
+      assert (Hroom : fp_u32 (spd + 4294967296 - fp_ec st) = (spd - fp_ec st)%N) by (unfold fp_u32; lia).
+      rewrite Hroom.
+      set (room := (spd - fp_ec st)%N) in *.
+      set (len := if (n <? room)%N then n else room).
+      assert (Hlen : (1 <= len /\ len <= n /\ fp_ec st + len <= spd)%N).
+      { subst len room. destruct (N.ltb_spec n (spd - fp_ec st)); lia. }
+      destruct Hlen as (Hl1 & Hl2 & Hl3).
+      assert (Hm1 : ((fp_ec st + len) * w <= spd * w)%N) by (apply N.mul_le_mono_r; exact Hl3).
+      assert (Hm2 : (len * w <= n * w)%N) by (apply N.mul_le_mono_r; exact Hl2).
+      rewrite N.mul_add_distr_r in Hm1.
+      destruct (bit_copy_spec (fp_buf st) (fp_ec st * w) src src_bit (len * w)) as (buf' & Hcp & Hbits & Hlen' & Hok' & _);
+        [lia | lia |].
+      rewrite Hcp.
+      rewrite (fp_u32_small (fp_ec st + len)) by lia.
+      set (X := firstn (N.to_nat (len * w)) (skipn (N.to_nat src_bit) (bc_bits src))) in *.
+      assert (HX : length X = N.to_nat (len * w)).
+      { subst X. rewrite firstn_length, skipn_length, bc_bits_length. lia. }
+      set (A := firstn (N.to_nat (fp_ec st * w)) (bc_bits (fp_buf st))) in *.
+      assert (HA : length A = N.to_nat (fp_ec st * w)).
+      { subst A. rewrite firstn_length, bc_bits_length. lia. }
+      assert (Hrest : ((n - len) * w = n * w - len * w)%N) by (rewrite N.mul_sub_distr_r; reflexivity).
+      assert (Hcat : X ++ firstn (N.to_nat ((n - len) * w)) (skipn (N.to_nat (src_bit + len * w)) (bc_bits src))
+                     = firstn (N.to_nat (n * w)) (skipn (N.to_nat src_bit) (bc_bits src))).
+      { subst X. replace (N.to_nat (src_bit + len * w)) with (N.to_nat src_bit + N.to_nat (len * w))%nat by lia.
+        rewrite firstn_skipn_add. f_equal. lia. }
+      cbn [fp_ec].
+      destruct (N.leb_spec spd (fp_ec st + len)) as [Hfull|Hpart].
+      * (* the block is full: flush *)
+        assert (Hecl : (fp_ec st + len = spd)%N) by lia.
+        rewrite Hecl.
+        rewrite wr_data_full by (cbn [fp_ec fp_buf]; first [reflexivity | rewrite Hlen'; exact Hbuf]).
+        cbn [fp_open fp_first fp_ts fp_buf fp_blocks].
+        set (st2 := {| fp_open := fp_open st; fp_first := fp_first st; fp_ts := (fp_ts st + Z.of_N spd)%Z;
+                       fp_ec := 0; fp_buf := buf'; fp_blocks := fp_blocks st ++ [(fp_ts st, spd, buf')] |}).
+        assert (HI2 : Inv first st2).
+        { constructor; cbn [st2 fp_open fp_first fp_ts fp_ec fp_buf fp_blocks].
+          - exact Hopen.
+          - exact Hfirst.
+          - lia.
+          - rewrite Hlen'; exact Hbuf.
+          - apply Hok'; assumption.
+          - rewrite app_length. cbn [length]. lia.
+          - rewrite Hts. apply full_blocks_snoc; [exact Hblocks | rewrite Hlen'; exact Hbuf | apply Hok'; assumption]. }
+        destruct (IH st2 first src (src_bit + len * w)%N (n - len)%N HI2 Hsrc) as (st' & Hrun & HI' & Hs' & Hc'); [lia | lia |].
+        exists st'. split; [exact Hrun|]. split; [exact HI'|]. split.
+        -- rewrite Hs'. unfold stream_bits. cbn [st2 fp_blocks fp_ec fp_buf].
+           rewrite flat_map_app. cbn [flat_map blk_bits]. cbn [N.mul N.to_nat firstn]. rewrite !app_nil_r.
+           rewrite firstn_all2 by (rewrite bc_bits_length; lia).
+           rewrite Hbits. fold A.
+           rewrite (skipn_all2 (n := N.to_nat (fp_ec st * w + len * w))) by (rewrite bc_bits_length; lia).
+           rewrite app_nil_r. rewrite <- !app_assoc. rewrite Hcat. reflexivity.
+        -- rewrite Hc'. unfold fp_count. cbn [st2 fp_blocks fp_ec]. rewrite app_length. cbn [length]. lia.
+      * set (st1 := {| fp_open := fp_open st; fp_first := fp_first st; fp_ts := fp_ts st;
+                       fp_ec := fp_ec st + len; fp_buf := buf'; fp_blocks := fp_blocks st |}).
+        assert (HI1 : Inv first st1).
+        { constructor; cbn [st1 fp_open fp_first fp_ts fp_ec fp_buf fp_blocks].
+          - exact Hopen.
+          - exact Hfirst.
+          - lia.
+          - rewrite Hlen'; exact Hbuf.
+          - apply Hok'; assumption.
+          - exact Hts.
+          - exact Hblocks. }
+        destruct (IH st1 first src (src_bit + len * w)%N (n - len)%N HI1 Hsrc) as (st' & Hrun & HI' & Hs' & Hc'); [lia | lia |].
+        exists st'. split; [exact Hrun|]. split; [exact HI'|]. split.
+        -- rewrite Hs'. unfold stream_bits. cbn [st1 fp_blocks fp_ec fp_buf].
+           rewrite Hbits. fold A.
+           replace (N.to_nat ((fp_ec st + len) * w)) with (length A + length X)%nat by (rewrite N.mul_add_distr_r; lia).
+           rewrite firstn_splice_prefix. rewrite <- !app_assoc. rewrite Hcat. reflexivity.
+        -- rewrite Hc'. unfold fp_count. cbn [st1 fp_blocks fp_ec]. lia.
+Qed.
+
+(* ---------------- the final (possibly partial) block ---------------- *)
+Definition blocks_wf (first : Z) (blocks : list (Z * N * list N)) : Prop :=
+  forall k ts cnt p, nth_error blocks k = Some (ts, cnt, p) ->
+    ts = (first + Z.of_nat k * Z.of_N spd)%Z /\ (0 < cnt <= spd)%N /\
+    ((S k < length blocks)%nat -> cnt = spd) /\
+    N.of_nat (length p) = ((cnt * w + 7) / 8)%N /\ bytes_ok p /\
+    Forall (fun b => b = false) (skipn (N.to_nat (cnt * w)) (bc_bits p)).
+
+Lemma Forall_false_skipn : forall (l : list bool) n,
+  (forall i, (n <= i)%nat -> nth i l false = false) -> Forall (fun b => b = false) (skipn n l).
+Proof.
+  intros l n H. apply Forall_forall. intros x Hx.
+  destruct (In_nth _ _ false Hx) as (i & Hi & <-).
+  rewrite nth_skipn_add. apply H. lia.
+Qed.
+
+Lemma full_blocks_wf : forall first blocks, full_blocks first blocks -> blocks_wf first blocks.
+Proof.
+  intros first blocks Hf k ts cnt p Hk. destruct (Hf k ts cnt p Hk) as (Hts & -> & Hl & Hok).
+  split; [exact Hts|]. split; [lia|]. split; [auto|]. split; [lia|]. split; [exact Hok|].
+  rewrite skipn_all2 by (rewrite bc_bits_length; lia). constructor.
+Qed.
+
+Lemma testbit_low_mask : forall b r k, (r < 8)%N -> (k < 8)%N ->
+  N.testbit (N.land b (N.land (N.shiftl 1 r - 1) 255)) k = N.testbit b k && (k <? r)%N.
+Proof.
+  intros b r k Hr Hk. rewrite !N.land_spec, testbit_mask, testbit_255.
+  destruct (N.ltb_spec k 8); [|lia]. rewrite andb_true_r. reflexivity.
+Qed.
+
+Lemma low_mask_lt : forall b r, (b < 256)%N -> (N.land b (N.land (N.shiftl 1 r - 1) 255) < 256)%N.
+Proof.
+  intros b r Hb. rewrite N.land_assoc. apply land_255_lt.
+Qed.
+
+(* wr_data with a partially filled block buffer: the payload is the first ceil(ec*w/8) bytes,
+   its bits below ec*w are the buffer's, the rest of the last byte is zero *)
+Lemma wr_data_partial : forall st, (0 < fp_ec st < spd)%N ->
+  (8 * N.of_nat (length (fp_buf st)) = spd * w)%N -> bytes_ok (fp_buf st) ->
+  exists buf' p,
+    fp_wr_data w spd st =
+      FP_ok {| fp_open := fp_open st; fp_first := fp_first st; fp_ts := (fp_ts st + Z.of_N spd)%Z; fp_ec := 0;
+               fp_buf := buf'; fp_blocks := fp_blocks st ++ [(fp_ts st, fp_ec st, p)] |} /\
+    N.of_nat (length p) = ((fp_ec st * w + 7) / 8)%N /\ bytes_ok p /\
+    (forall i, nth i (bc_bits p) false =
+               if (i <? N.to_nat (fp_ec st * w))%nat then nth i (bc_bits (fp_buf st)) false else false).
+Proof.
+  intros st Hec Hl Hok. unfold fp_wr_data.
+  destruct (N.eqb_spec (fp_ec st) 0); [lia|].
+  assert (Hm : (fp_ec st * w <= spd * w)%N) by (apply N.mul_le_mono_r; lia).
+  rewrite (fp_u32_small (fp_ec st * w)) by lia. rewrite (fp_u32_small (fp_ec st * w + 7)) by lia.
+  rewrite land7.
+  set (nb := (fp_ec st * w)%N) in *. set (dl := ((nb + 7) / 8)%N).
+  assert (Hdl : (dl <= N.of_nat (length (fp_buf st)))%N) by (subst dl; lia).
+  destruct (N.eqb_spec (nb mod 8) 0) as [Hr|Hr].
+  - destruct (N.leb_spec dl (N.of_nat (length (fp_buf st)))); [|lia].
+    exists (fp_buf st), (firstn (N.to_nat dl) (fp_buf st)). split; [reflexivity|].
+    split; [rewrite firstn_length; lia|]. split; [apply Forall_firstn'; exact Hok|].
+    intros i. rewrite bc_bits_firstn, nth_firstn_if.
+    replace (8 * N.to_nat dl)%nat with (N.to_nat nb) by (subst dl; lia). reflexivity.
+  - assert (Hd1 : (N.to_nat (dl - 1) < length (fp_buf st))%nat) by (subst dl; lia).
+    unfold bc_get, bc_set. rewrite (nth_error_nth' (fp_buf st) 0%N Hd1).
+    rewrite bc_set_nat_some by exact Hd1.
+    set (b := nth (N.to_nat (dl - 1)) (fp_buf st) 0%N).
+    set (m := N.land b (N.land (N.shiftl 1 (nb mod 8) - 1) 255)).
+    set (buf' := firstn (N.to_nat (dl - 1)) (fp_buf st) ++ m :: skipn (S (N.to_nat (dl - 1))) (fp_buf st)).
+    assert (Hl' : length buf' = length (fp_buf st)) by (apply set_length; exact Hd1).
+    destruct (N.leb_spec dl (N.of_nat (length buf'))); [|lia].
+    exists buf', (firstn (N.to_nat dl) buf'). split; [reflexivity|].
+    assert (Hb : (b < 256)%N).
+    { subst b. apply (proj1 (Forall_forall _ _) Hok). apply nth_In. exact Hd1. }
+    split; [rewrite firstn_length; lia|]. split.
+    { apply Forall_firstn'. apply set_bytes_ok; [exact Hok | apply low_mask_lt; exact Hb]. }
+    intros i. rewrite bc_bits_firstn, nth_firstn_if.
+    destruct (split8 i) as (j & k & -> & Hk).
+    rewrite !bc_bits_nth by exact Hk. unfold buf'. rewrite set_nth by exact Hd1. fold b m.
+    destruct (Nat.eqb_spec j (N.to_nat (dl - 1))) as [Hj|Hj].
+    + unfold m. rewrite testbit_low_mask by lia. fold b. subst j.
+      destruct (Nat.ltb_spec (8 * N.to_nat (dl - 1) + k) (8 * N.to_nat dl)); [|subst dl; lia].
+      destruct (N.ltb_spec (N.of_nat k) (nb mod 8)); destruct (Nat.ltb_spec (8 * N.to_nat (dl - 1) + k) (N.to_nat nb));
+        try (exfalso; subst dl; lia).
+      * rewrite andb_true_r. reflexivity.
+      * rewrite andb_false_r. reflexivity.
+    + destruct (Nat.ltb_spec (8 * j + k) (8 * N.to_nat dl)); destruct (Nat.ltb_spec (8 * j + k) (N.to_nat nb));
+        try reflexivity; exfalso; subst dl; lia.
+Qed.
+
+Definition fp_total_is (blocks : list (Z * N * list N)) (n : N) : Prop := fp_total blocks = n.
+
+Lemma fp_total_app : forall a b, fp_total (a ++ b) = (fp_total a + fp_total b)%N.
+Proof.
+  induction a as [|[[ts c] p] a IH]; intros b; [reflexivity|].
+  cbn [app]. unfold fp_total in *. cbn [fold_right]. rewrite IH. lia.
+Qed.
+
+Lemma full_blocks_total : forall first blocks, full_blocks first blocks ->
+  fp_total blocks = (N.of_nat (length blocks) * spd)%N.
+Proof.
+  intros first blocks. revert first. induction blocks as [|[[ts c] p] r IH]; intros first Hf; [reflexivity|].
+  assert (Hc : c = spd) by (destruct (Hf 0%nat ts c p eq_refl) as (_ & -> & _); reflexivity).
+  assert (Hr : full_blocks (first + Z.of_N spd)%Z r).
+  { intros k ts' c' p' Hk. destruct (Hf (S k) ts' c' p' Hk) as (Hts & Hrest). split; [lia|exact Hrest]. }
+  unfold fp_total in *. cbn [fold_right length]. rewrite (IH _ Hr). lia.
+Qed.
+
+Lemma close_spec : forall st first, Inv first st ->
+  exists st', fp_wr_data w spd st = FP_ok st' /\
+    flat_map blk_bits (fp_blocks st') = stream_bits st /\
+    blocks_wf first (fp_blocks st') /\ fp_total (fp_blocks st') = fp_count st /\
+    fp_first st' = first.
+Proof.
+  intros st first [Hopen Hfirst Hec Hbuf Hok Hts Hblocks].
+  destruct (N.eq_dec (fp_ec st) 0) as [Hz|Hnz].
+  - exists st. unfold fp_wr_data. rewrite Hz. cbn [N.eqb]. split; [reflexivity|].
+    split; [|split; [|split]].
+    + unfold stream_bits. rewrite Hz. cbn [N.mul N.to_nat firstn]. rewrite app_nil_r. reflexivity.
+    + apply full_blocks_wf; exact Hblocks.
+    + unfold fp_count. rewrite Hz, (full_blocks_total _ _ Hblocks). lia.
+    + exact Hfirst.
+  - destruct (wr_data_partial st ltac:(lia) Hbuf Hok) as (buf' & p & Hrun & Hlp & Hokp & Hbits).
+    eexists. split; [exact Hrun|]. cbn [fp_blocks fp_first].
+    assert (Hm : (fp_ec st * w <= spd * w)%N) by (apply N.mul_le_mono_r; lia).
+    split; [|split; [|split]].
+    + unfold stream_bits. rewrite flat_map_app. cbn [flat_map blk_bits]. rewrite app_nil_r. f_equal.
+      apply (list_eq_nth false).
+      * rewrite !firstn_length, !bc_bits_length. lia.
+      * intros i _. rewrite !nth_firstn_if, Hbits.
+        destruct (Nat.ltb_spec i (N.to_nat (fp_ec st * w))); reflexivity.
+    + intros k ts cnt q Hk.
+      destruct (lt_dec k (length (fp_blocks st))) as [Hlt|Hge].
+      * rewrite nth_error_app1 in Hk by exact Hlt.
+        destruct (full_blocks_wf _ _ Hblocks k ts cnt q Hk) as (H1 & H2 & H3 & H4).
+        split; [exact H1|]. split; [exact H2|]. split; [|exact H4].
+        intros _. destruct (Hblocks k ts cnt q Hk) as (_ & -> & _). reflexivity.
+      * rewrite nth_error_app2 in Hk by lia.
+        destruct (k - length (fp_blocks st))%nat as [|m] eqn:E; cbn in Hk; [|destruct m; discriminate].
+        inversion Hk; subst ts cnt q. clear Hk.
+        assert (Hkl : k = length (fp_blocks st)) by lia. subst k.
+        split; [exact Hts|]. split; [lia|].
+        split; [rewrite app_length; cbn [length]; lia|]. split; [exact Hlp|]. split; [exact Hokp|].
+        apply Forall_false_skipn. intros i Hi. rewrite Hbits.
+        destruct (Nat.ltb_spec i (N.to_nat (fp_ec st * w))); [lia|reflexivity].
+    + rewrite fp_total_app, (full_blocks_total _ _ Hblocks). unfold fp_count, fp_total. cbn [fold_right]. lia.
+    + exact Hfirst.
+Qed.
+
+(* ---------------- gap fill ---------------- *)
+Section Gap.
+Variables (fill : list N) (fillv : N) (B : N).
+Hypothesis Hfill_ok : bytes_ok fill.
+Hypothesis HB : (B < 4294967296)%N.
+Hypothesis Hfill_len : (B * w <= 8 * N.of_nat (length fill))%N.
+Hypothesis Hfill_bits : forall n, (n <= B)%N ->
+  firstn (N.to_nat (n * w)) (bc_bits fill) = sbits w (repeat fillv (N.to_nat n)).
+
+Lemma gap_loop_spec : forall fuel st first skip bufsz,
+  Inv first st -> (1 <= bufsz <= B)%N -> (N.to_nat skip <= fuel)%nat ->
+  exists st', fp_gap_loop fuel w spd st fill skip bufsz = FP_ok st' /\ Inv first st' /\
+    stream_bits st' = stream_bits st ++ sbits w (repeat fillv (N.to_nat skip)) /\
+    fp_count st' = (fp_count st + skip)%N.
+Proof.
+  induction fuel as [|fuel IH]; intros st first skip bufsz HI Hbz Hfuel.
+  - assert (skip = 0%N) by lia. subst skip. exists st. split; [reflexivity|]. split; [exact HI|].
+    split; [|lia]. cbn. rewrite app_nil_r. reflexivity.
+  - cbn [fp_gap_loop]. destruct (N.eqb_spec skip 0) as [->|Hs0].
+    + exists st. split; [reflexivity|]. split; [exact HI|]. split; [|lia]. cbn. rewrite app_nil_r. reflexivity.
+    + set (bz := if (skip <? bufsz)%N then skip else bufsz).
+      assert (Hbz' : (1 <= bz /\ bz <= skip /\ bz <= bufsz)%N).
+      { subst bz. destruct (N.ltb_spec skip bufsz); lia. }
+      destruct Hbz' as (Hz1 & Hz2 & Hz3).
+      rewrite (fp_u32_small bz) by lia.
+      assert (Hm : (bz * w <= B * w)%N) by (apply N.mul_le_mono_r; lia).
+      destruct (wr_inner_spec (N.to_nat bz) st first fill 0 bz HI Hfill_ok (le_n _)) as (st1 & Hrun & HI1 & Hs1 & Hc1); [lia|].
+      rewrite Hrun.
+      destruct (IH st1 first (skip - bz)%N bz HI1) as (st' & Hrun' & HI' & Hs' & Hc'); [lia | lia |].
+      exists st'. split; [exact Hrun'|]. split; [exact HI'|]. split; [|lia].
+      rewrite Hs', Hs1. cbn [N.to_nat skipn]. rewrite Hfill_bits by lia.
+      rewrite <- app_assoc, <- sbits_app, <- repeat_app. do 3 f_equal. lia.
+Qed.
+End Gap.
+End Writer.
+(* ------------------------------------------------------------------ *)
+(* one jls_wr_fsr_data call against Spec.fsr_write                     *)
+(* ------------------------------------------------------------------ *)
+Definition fp_bufsz (dt : N) : N :=
+  if (dt =? JLS_DATATYPE_F32)%N then (FP_FILL_BYTES / 4)%N
+  else if (dt =? JLS_DATATYPE_F64)%N then (FP_FILL_BYTES / 8)%N
+  else ((FP_FILL_BYTES * 8) / dt_bits dt)%N.
+
+(* what the proofs need to know about a data type: its width and its gap-fill buffer *)
+Definition dt_fill_ok (dt : N) : Prop :=
+  let w := dt_bits dt in
+  (0 < w)%N /\ (1 <= fp_bufsz dt < 4294967296)%N /\ bytes_ok (fp_fill_buf dt) /\
+  (fp_bufsz dt * w <= 8 * N.of_nat (length (fp_fill_buf dt)))%N /\
+  forall n, (n <= fp_bufsz dt)%N ->
+    firstn (N.to_nat (n * w)) (bc_bits (fp_fill_buf dt)) = sbits w (repeat (fill_value dt) (N.to_nat n)).
+
+Definition spd_ok (w spd : N) : Prop :=
+  (0 < spd)%N /\ ((spd * w) mod 8 = 0)%N /\ (spd * w + 7 < 4294967296)%N.
+
+Definition Rel (dt spd : N) (st : fp_state) (s : sigstate) : Prop :=
+  sg_dtype (ss_def s) = dt /\
+  match ss_first s with
+  | None => fp_open st = false /\ fp_blocks st = [] /\ ss_samples s = [] /\
+            (8 * N.of_nat (length (fp_buf st)) = spd * dt_bits dt)%N /\ bytes_ok (fp_buf st)
+  | Some first => Inv (dt_bits dt) spd first st /\
+                  stream_bits (dt_bits dt) st = sbits (dt_bits dt) (ss_samples s) /\
+                  fp_count spd st = N.of_nat (length (ss_samples s))
+  end.
+
+Lemma slice_sbits : forall w l z a b, (a + b <= length l)%nat ->
+  firstn (b * N.to_nat w) (skipn (a * N.to_nat w) (sbits w l ++ z)) = sbits w (firstn b (skipn a l)).
+Proof.
+  intros w l z a b Hab.
+  rewrite sbits_firstn, sbits_skipn.
+  rewrite skipn_app. rewrite firstn_app.
+  assert (Hz : (a * N.to_nat w - length (sbits w l) = 0)%nat).
+  { rewrite sbits_length. assert (a * N.to_nat w <= length l * N.to_nat w)%nat by (apply Nat.mul_le_mono_r; lia). lia. }
+  assert (Hy : (b * N.to_nat w - length (skipn (a * N.to_nat w) (sbits w l)) = 0)%nat).
+  { rewrite skipn_length, sbits_length.
+    assert ((a + b) * N.to_nat w <= length l * N.to_nat w)%nat by (apply Nat.mul_le_mono_r; lia). lia. }
+  rewrite Hy, Hz. cbn [firstn skipn]. apply app_nil_r.
+Qed.
+
+Lemma Inv_next : forall w spd first st, Inv w spd first st ->
+  fp_next st = (first + Z.of_N (fp_count spd st))%Z.
+Proof. intros w spd first st HI. unfold fp_next, fp_count. rewrite (inv_ts _ _ _ _ HI). lia. Qed.
+
+Lemma wr_call_spec : forall dt spd st s sid samples,
+  dt_fill_ok dt -> spd_ok (dt_bits dt) spd -> Rel dt spd st s ->
+  (N.of_nat (length samples) < 4294967296)%N ->
+  exists st', fp_wr_call dt spd st sid (pack (dt_bits dt) samples) (N.of_nat (length samples)) = FP_ok st' /\
+              Rel dt spd st' (fsr_write s sid samples).
+Proof.
+  intros dt spd st s sid samples (Hw & Hbz & Hfok & Hflen & Hfbits) (Hspd & Hmul & Hbnd) (Hdt & HR) Hn32.
+  set (w := dt_bits dt) in *.
+  unfold fp_wr_call. fold w.
+  destruct samples as [|x r].
+  { cbn [length N.of_nat N.eqb]. exists st. split; [reflexivity|]. cbn [fsr_write]. split; assumption. }
+  set (samples := x :: r) in *. set (n := N.of_nat (length samples)) in *.
+  assert (Hn0 : (1 <= n)%N) by (subst n samples; cbn [length]; lia).
+  destruct (N.eqb_spec n 0); [lia|].
+  destruct (pack_spec w samples) as (pad & _ & Hpb & Hpok).
+  assert (Hpl : (8 * N.of_nat (length (pack w samples)) = n * w + N.of_nat pad)%N).
+  { apply (f_equal (@length bool)) in Hpb. rewrite bc_bits_length, app_length, repeat_length, sbits_length in Hpb.
+    subst n. lia. }
+  assert (Hslice : forall a b, (a + b <= n)%N ->
+     firstn (N.to_nat (b * w)) (skipn (N.to_nat (a * w)) (bc_bits (pack w samples))) =
+     sbits w (firstn (N.to_nat b) (skipn (N.to_nat a) samples))).
+  { intros a b Hab. rewrite Hpb, !N2Nat.inj_mul. apply slice_sbits. subst n. lia. }
+  unfold fsr_write. fold samples.
+  change (match samples with [] => s | _ :: _ => ?X end) with X.
+  destruct (ss_first s) as [first|] eqn:Efirst.
+  - (* already open *)
+    destruct HR as (HI & Hstream & Hcount).
+    rewrite (inv_open _ _ _ _ HI).
+    rewrite (Inv_next _ _ _ _ HI). rewrite Hcount.
+    replace (Z.of_N (N.of_nat (length (ss_samples s)))) with (Z.of_nat (length (ss_samples s))) by lia.
+    set (next := (first + Z.of_nat (length (ss_samples s)))%Z).
+    destruct (Z.eqb_spec sid next) as [Heq|Hne].
+    + (* normal *)
+      destruct (wr_inner_spec w spd Hw Hspd Hmul Hbnd (N.to_nat n) st first (pack w samples) 0 n HI Hpok (le_n _))
+        as (st' & Hrun & HI' & Hs' & Hc'); [lia|].
+      exists st'. split; [exact Hrun|]. split; [exact Hdt|]. cbn [ss_first ss_samples ss_def]. fold w.
+      split; [exact HI'|].
+      destruct (Z.geb_spec sid next); [|lia].
+      replace (Z.to_nat (sid - next)) with 0%nat by lia. cbn [repeat app].
+      split.
+      * rewrite Hs', Hstream, sbits_app. f_equal.
+        specialize (Hslice 0%N n ltac:(lia)). cbn [N.mul] in Hslice. rewrite Hslice.
+        cbn [N.to_nat skipn]. rewrite firstn_all2 by (subst n; lia). reflexivity.
+      * rewrite Hc', Hcount, app_length. subst n. lia.
+    + destruct (Z.ltb_spec sid next) as [Hlt|Hgt].
+      * (* overlap *)
+        destruct (Z.geb_spec sid next); [lia|].
+        destruct (Z.leb_spec (sid + Z.of_N n) next) as [Hpast|Hpart].
+        -- exists st. split; [reflexivity|]. split; [exact Hdt|]. cbn [ss_first ss_samples ss_def]. fold w.
+           rewrite skipn_all2 by (subst n; lia). rewrite app_nil_r. split; [exact HI|]. split; assumption.
+        -- set (ffwd := Z.to_N (next - sid)).
+           assert (Hff : (1 <= ffwd /\ ffwd < n)%N) by (subst ffwd; lia).
+           rewrite (fp_u32_small ffwd) by lia.
+           assert (Hn' : fp_u32 (n + 4294967296 - ffwd) = (n - ffwd)%N) by (unfold fp_u32; lia).
+           rewrite Hn'.
+           assert (Hmm : ((n - ffwd) * w = n * w - ffwd * w)%N) by (apply N.mul_sub_distr_r).
+           assert (Hmle : (ffwd * w <= n * w)%N) by (apply N.mul_le_mono_r; lia).
+           destruct (wr_inner_spec w spd Hw Hspd Hmul Hbnd (N.to_nat (n - ffwd)) st first (pack w samples) (ffwd * w) (n - ffwd) HI Hpok (le_n _))
+             as (st' & Hrun & HI' & Hs' & Hc'); [lia|].
+           exists st'. split; [exact Hrun|]. split; [exact Hdt|]. cbn [ss_first ss_samples ss_def]. fold w.
+           split; [exact HI'|]. split.
+           ++ rewrite Hs', Hstream, sbits_app. f_equal. rewrite Hslice by lia.
+              replace (N.to_nat ffwd) with (Z.to_nat (next - sid)) by (subst ffwd; lia).
+              rewrite firstn_all2; [reflexivity|]. rewrite skipn_length. subst n ffwd. lia.
+           ++ rewrite Hc', Hcount, app_length, skipn_length. subst n ffwd. lia.
+      * (* gap *)
+        assert (Hgap : (next < sid)%Z) by lia.
+        destruct (Z.geb_spec sid next); [|lia].
+        assert (Hnd : (negb (dt =? JLS_DATATYPE_F32)%N && negb (dt =? JLS_DATATYPE_F64)%N && (w =? 0)%N) = false).
+        { destruct (N.eqb_spec w 0); [lia|]. rewrite andb_false_r. reflexivity. }
+        rewrite Hnd.
+        set (skip := Z.to_N (sid - next)).
+        destruct (gap_loop_spec w spd Hw Hspd Hmul Hbnd (fp_fill_buf dt) (fill_value dt) (fp_bufsz dt) Hfok ltac:(lia) Hflen Hfbits
+                    (N.to_nat skip) st first skip (fp_bufsz dt) HI ltac:(lia) (le_n _)) as (st1 & Hrun1 & HI1 & Hs1 & Hc1).
+        unfold fp_bufsz in Hrun1. fold w in Hrun1. rewrite Hrun1.
+        destruct (wr_inner_spec w spd Hw Hspd Hmul Hbnd (N.to_nat n) st1 first (pack w samples) 0 n HI1 Hpok (le_n _))
+          as (st' & Hrun & HI' & Hs' & Hc'); [lia|].
+        exists st'. split; [exact Hrun|]. split; [exact Hdt|]. cbn [ss_first ss_samples ss_def]. fold w.
+        split; [exact HI'|]. rewrite Hdt. split.
+        -- rewrite Hs', Hs1, Hstream, !sbits_app, <- app_assoc. f_equal. f_equal.
+           ++ f_equal. f_equal. subst skip. lia.
+           ++ specialize (Hslice 0%N n ltac:(lia)). cbn [N.mul] in Hslice. rewrite Hslice.
+              cbn [N.to_nat skipn]. rewrite firstn_all2 by (subst n; lia). reflexivity.
+        -- rewrite Hc', Hc1, Hcount, !app_length, repeat_length. subst n skip. lia.
+  - (* first call: allocate *)
+    destruct HR as (Hopen & Hblk & Hsam & Hbuf & Hbok).
+    rewrite Hopen.
+    set (st1 := {| fp_open := true; fp_first := sid; fp_ts := sid; fp_ec := 0; fp_buf := fp_buf st; fp_blocks := fp_blocks st |}).
+    assert (HI1 : Inv w spd sid st1).
+    { constructor; cbn [st1 fp_open fp_first fp_ts fp_ec fp_buf fp_blocks]; try assumption; try reflexivity.
+      - rewrite Hblk. cbn [length]. lia.
+      - rewrite Hblk. intros k ts cnt p Hk. destruct k; discriminate. }
+    assert (Hnx : fp_next st1 = sid) by (unfold fp_next; cbn [st1 fp_ts fp_ec]; lia).
+    rewrite Hnx, Z.eqb_refl.
+    destruct (wr_inner_spec w spd Hw Hspd Hmul Hbnd (N.to_nat n) st1 sid (pack w samples) 0 n HI1 Hpok (le_n _))
+      as (st' & Hrun & HI' & Hs' & Hc'); [lia|].
+    exists st'. split; [exact Hrun|]. split; [exact Hdt|]. cbn [ss_first ss_samples ss_def]. fold w.
+    split; [exact HI'|]. split.
+    + rewrite Hs'. unfold stream_bits at 1. cbn [st1 fp_blocks fp_ec fp_buf]. rewrite Hblk.
+      cbn [flat_map]. change (N.to_nat (0 * w)) with 0%nat. cbn [firstn app].
+      specialize (Hslice 0%N n ltac:(lia)). cbn [N.mul] in Hslice. rewrite Hslice.
+      cbn [N.to_nat skipn]. rewrite firstn_all2 by (subst n; lia). reflexivity.
+    + rewrite Hc'. unfold fp_count. cbn [st1 fp_blocks fp_ec]. rewrite Hblk. cbn [length]. subst n. lia.
+Qed.
+(* ------------------------------------------------------------------ *)
+(* the gap-fill buffer of each data type                               *)
+(* ------------------------------------------------------------------ *)
+Lemma concat_repeat_false : forall a b, concat (repeat (repeat false a) b) = repeat false (b * a).
+Proof. induction b; [reflexivity|]. cbn [repeat concat]. rewrite IHb, <- repeat_app. reflexivity. Qed.
+
+Lemma firstn_repeat_le {A} : forall (x : A) k m, (k <= m)%nat -> firstn k (repeat x m) = repeat x k.
+Proof.
+  induction k as [|k IH]; intros m H; [reflexivity|].
+  destruct m as [|m]; [lia|]. cbn [repeat firstn]. rewrite IH by lia. reflexivity.
+Qed.
+
+Lemma bc_bits_repeat0 : forall m, bc_bits (repeat 0%N m) = repeat false (8 * m).
+Proof.
+  induction m as [|m IH]; [reflexivity|]. cbn [repeat]. rewrite bc_bits_cons, IH.
+  change (bits_of 8 0) with (repeat false 8). rewrite <- repeat_app. f_equal. lia.
+Qed.
+
+Lemma bc_bits_concat_repeat : forall pat k, bc_bits (concat (repeat pat k)) = concat (repeat (bc_bits pat) k).
+Proof. induction k; [reflexivity|]. cbn [repeat concat]. rewrite bc_bits_app, IHk. reflexivity. Qed.
+
+Lemma firstn_concat_repeat {A} : forall (X : list A) n k, (n <= k)%nat ->
+  firstn (n * length X) (concat (repeat X k)) = concat (repeat X n).
+Proof.
+  induction n as [|n IH]; intros k H; [reflexivity|].
+  destruct k as [|k]; [lia|]. cbn [repeat concat].
+  replace (S n * length X)%nat with (length X + n * length X)%nat by lia.
+  rewrite firstn_app_len, IH by lia. reflexivity.
+Qed.
+
+Lemma bytes_ok_repeat : forall v m, (v < 256)%N -> bytes_ok (repeat v m).
+Proof. intros v m Hv. apply Forall_forall. intros x Hx. apply repeat_spec in Hx. subst. exact Hv. Qed.
+
+Lemma bytes_ok_concat_repeat : forall pat k, bytes_ok pat -> bytes_ok (concat (repeat pat k)).
+Proof.
+  intros pat k Hp. induction k; [constructor|]. cbn [repeat concat]. apply Forall_app. split; assumption.
+Qed.
+
+Lemma concat_repeat_length {A} : forall (X : list A) k, length (concat (repeat X k)) = (k * length X)%nat.
+Proof. induction k; [reflexivity|]. cbn [repeat concat]. rewrite app_length, IHk. lia. Qed.
+
+Lemma dt_fill_ok_int : forall dt,
+  (dt =? JLS_DATATYPE_F32)%N = false -> (dt =? JLS_DATATYPE_F64)%N = false -> fill_value dt = 0%N ->
+  (0 < dt_bits dt <= 262144)%N -> dt_fill_ok dt.
+Proof.
+  intros dt H32 H64 Hfv Hw. unfold dt_fill_ok, fp_bufsz, fp_fill_buf. rewrite H32, H64, Hfv.
+  set (w := dt_bits dt) in *. unfold FP_FILL_BYTES. change (32768 * 8)%N with 262144%N.
+  assert (Hq : (w * (262144 / w) <= 262144)%N) by (apply N.mul_div_le; lia).
+  assert (Hq1 : (0 < 262144 / w)%N) by (apply N.div_str_pos; lia).
+  assert (Hq2 : (262144 / w <= 262144)%N).
+  { assert (1 * (262144 / w) <= w * (262144 / w))%N by (apply N.mul_le_mono_r; lia). lia. }
+  split; [lia|]. split; [lia|]. split; [apply bytes_ok_repeat; lia|].
+  rewrite repeat_length. split; [lia|].
+  intros n Hn. rewrite bc_bits_repeat0, sbits_repeat, bits_of_0, concat_repeat_false.
+  assert (Hnw : (n * w <= w * (262144 / w))%N) by (rewrite (N.mul_comm w); apply N.mul_le_mono_r; exact Hn).
+  rewrite firstn_repeat_le by lia. f_equal. lia.
+Qed.
+
+Lemma dt_fill_ok_float : forall dt pat (k W : N),
+  dt_bits dt = W -> (0 < W)%N -> N.of_nat (length pat) = (W / 8)%N -> (W mod 8 = 0)%N ->
+  (1 <= k < 4294967296)%N -> bytes_ok pat ->
+  fp_bufsz dt = k -> fp_fill_buf dt = concat (repeat pat (N.to_nat k)) ->
+  bc_bits pat = bits_of (N.to_nat W) (fill_value dt) ->
+  dt_fill_ok dt.
+Proof.
+  intros dt pat k W HW HW0 Hpl Hpm Hk Hpok Hbz Hfb Hbits. unfold dt_fill_ok. rewrite HW, Hbz, Hfb.
+  split; [exact HW0|]. split; [exact Hk|]. split; [apply bytes_ok_concat_repeat; exact Hpok|].
+  rewrite concat_repeat_length. split; [rewrite Nat2N.inj_mul, N2Nat.id; assert (HW8 : (W = 8 * N.of_nat (length pat))%N) by lia; rewrite HW8; lia|].
+  intros n Hn. rewrite bc_bits_concat_repeat, sbits_repeat, Hbits.
+  replace (N.to_nat (n * W)) with (N.to_nat n * length (bits_of (N.to_nat W) (fill_value dt)))%nat
+    by (rewrite bits_of_length; lia).
+  apply firstn_concat_repeat. lia.
+Qed.
+
+Definition fp_dt_list : list N :=
+  [JLS_DATATYPE_I4; JLS_DATATYPE_I8; JLS_DATATYPE_I16; JLS_DATATYPE_I24; JLS_DATATYPE_I32; JLS_DATATYPE_I64;
+   JLS_DATATYPE_U1; JLS_DATATYPE_U4; JLS_DATATYPE_U8; JLS_DATATYPE_U16; JLS_DATATYPE_U24; JLS_DATATYPE_U32;
+   JLS_DATATYPE_U64; JLS_DATATYPE_F32; JLS_DATATYPE_F64].
+
+Lemma dt_fill_ok_all : forall dt, In dt fp_dt_list -> dt_fill_ok dt.
+Proof.
+  intros dt H. unfold fp_dt_list in H. cbn [In] in H.
+  repeat (destruct H as [<-|H];
+          [first [ apply dt_fill_ok_int; [reflexivity | reflexivity | reflexivity | vm_compute; split; [reflexivity | discriminate]]
+                 | idtac ] |]); try contradiction.
+  - apply (dt_fill_ok_float JLS_DATATYPE_F32 [0; 0; 192; 127]%N 8192 32); try reflexivity; try (vm_compute; split; [discriminate|reflexivity]).
+    repeat constructor.
+  - apply (dt_fill_ok_float JLS_DATATYPE_F64 [0; 0; 0; 0; 0; 0; 248; 127]%N 4096 64); try reflexivity; try (vm_compute; split; [discriminate|reflexivity]).
+    repeat constructor.
+Qed.
+(* ------------------------------------------------------------------ *)
+(* any list of calls                                                   *)
+(* ------------------------------------------------------------------ *)
+Lemma run_spec : forall dt spd calls st s,
+  dt_fill_ok dt -> spd_ok (dt_bits dt) spd -> Rel dt spd st s ->
+  Forall (fun c => (N.of_nat (length (snd c)) < 4294967296)%N) calls ->
+  exists st', fp_run dt spd st calls = FP_ok st' /\
+              Rel dt spd st' (fold_left (fun s c => fsr_write s (fst c) (snd c)) calls s).
+Proof.
+  intros dt spd calls. induction calls as [|[sid samples] r IH]; intros st s Hdt Hspd HR Hall.
+  - exists st. split; [reflexivity|exact HR].
+  - inversion Hall as [|c l Hc Hr]; subst. cbn [snd] in Hc.
+    destruct (wr_call_spec dt spd st s sid samples Hdt Hspd HR Hc) as (st1 & Hrun1 & HR1).
+    cbn [fp_run fold_left fst snd]. rewrite Hrun1. apply IH; assumption.
+Qed.
+
+Lemma Rel_init : forall dt spd buf0 d, sg_dtype d = dt ->
+  (8 * N.of_nat (length buf0) = spd * dt_bits dt)%N -> bytes_ok buf0 ->
+  Rel dt spd (fp_init buf0) (new_sig d).
+Proof. intros. split; [assumption|]. cbn. auto. Qed.
+
+Lemma blocks_stream_lemma : forall dt spd buf0 d calls,
+  In dt fp_dt_list -> sg_dtype d = dt ->
+  (0 < spd)%N -> ((spd * dt_bits dt) mod 8 = 0)%N -> (spd * dt_bits dt + 7 < 4294967296)%N ->
+  (8 * N.of_nat (length buf0) = spd * dt_bits dt)%N -> Forall (fun b => (b < 256)%N) buf0 ->
+  Forall (fun c => (N.of_nat (length (snd c)) < 4294967296)%N) calls ->
+  let w := dt_bits dt in
+  let s := fold_left (fun s c => fsr_write s (fst c) (snd c)) calls (new_sig d) in
+  exists st, fp_write_all dt spd buf0 calls = FP_ok st /\
+    flat_map (fun b => let '(_, cnt, p) := b in firstn (N.to_nat (cnt * w)) (bc_bits p)) (fp_blocks st)
+      = flat_map (bits_of (N.to_nat w)) (ss_samples s) /\
+    fp_total (fp_blocks st) = N.of_nat (length (ss_samples s)) /\
+    (ss_first s = None -> fp_blocks st = [] /\ ss_samples s = []) /\
+    (forall first, ss_first s = Some first -> fp_first st = first) /\
+    (forall k ts cnt p, nth_error (fp_blocks st) k = Some (ts, cnt, p) ->
+       ss_first s = Some (ts - Z.of_nat k * Z.of_N spd)%Z /\ (0 < cnt <= spd)%N /\
+       ((S k < length (fp_blocks st))%nat -> cnt = spd) /\
+       N.of_nat (length p) = ((cnt * w + 7) / 8)%N /\ Forall (fun b => (b < 256)%N) p /\
+       Forall (fun b => b = false) (skipn (N.to_nat (cnt * w)) (bc_bits p))).
+Proof.
+  intros dt spd buf0 d calls Hin Hd Hspd Hmul Hbnd Hbuf Hok Hcalls w s.
+  pose proof (dt_fill_ok_all dt Hin) as Hfo.
+  destruct (run_spec dt spd calls (fp_init buf0) (new_sig d) Hfo (conj Hspd (conj Hmul Hbnd))
+              (Rel_init dt spd buf0 d Hd Hbuf Hok) Hcalls) as (st1 & Hrun & (Hdt & HR)).
+  fold s in HR. unfold fp_write_all. rewrite Hrun. unfold fp_close. fold w in HR |- *.
+  destruct (ss_first s) as [first|] eqn:Efirst.
+  - destruct HR as (HI & Hstream & Hcount).
+    rewrite (inv_open _ _ _ _ HI).
+    destruct Hfo as (Hw & _).
+    destruct (close_spec w spd Hw Hspd Hmul Hbnd st1 first HI) as (st' & Hcl & Hbits & Hwf & Htot & Hfst).
+    exists st'. split; [exact Hcl|]. split; [change (flat_map (blk_bits w) (fp_blocks st') = sbits w (ss_samples s)); rewrite <- Hstream; exact Hbits|].
+    split; [rewrite Htot; exact Hcount|]. split; [discriminate|].
+    split; [intros f Hf; inversion Hf; subst f; exact Hfst|].
+    intros k ts cnt p Hk. destruct (Hwf k ts cnt p Hk) as (H1 & H2 & H3 & H4 & H5 & H6).
+    split; [f_equal; lia|]. auto.
+  - destruct HR as (Hopen & Hblk & Hsam & _).
+    rewrite Hopen. exists st1. split; [reflexivity|]. rewrite Hblk, Hsam.
+    split; [reflexivity|]. split; [reflexivity|]. split; [auto|]. split; [discriminate|].
+    intros k ts cnt p Hk. destruct k; discriminate.
+Qed.
+(* ------------------------------------------------------------------ *)
+(* the reader                                                          *)
+(* ------------------------------------------------------------------ *)
+Lemma skipn_firstn_sub {A} : forall (l : list A) m n, skipn m (firstn n l) = firstn (n - m) (skipn m l).
+Proof.
+  induction l as [|x l IH]; intros m n.
+  - rewrite firstn_nil, !skipn_nil, firstn_nil. reflexivity.
+  - destruct n as [|n]; destruct m as [|m]; cbn [firstn skipn Nat.sub]; try reflexivity.
+    apply IH.
+Qed.
+
+Lemma firstn_firstn_le {A} : forall (l : list A) i j, (i <= j)%nat -> firstn i (firstn j l) = firstn i l.
+Proof. intros. rewrite firstn_firstn. f_equal. lia. Qed.
+
+Section Reader.
+Variables (w spd : N).
+Hypothesis Hw : (0 < w)%N.
+Hypothesis Hspd : (0 < spd)%N.
+
+Fixpoint wf_rec (first : Z) (blocks : list (Z * N * list N)) (stream : list N) : Prop :=
+  match blocks with
+  | [] => stream = []
+  | (ts, cnt, p) :: r =>
+    ts = first /\ (0 < cnt <= spd)%N /\ (r <> [] -> cnt = spd) /\
+    (cnt * w <= 8 * N.of_nat (length p))%N /\ bytes_ok p /\
+    (N.to_nat cnt <= length stream)%nat /\
+    firstn (N.to_nat (cnt * w)) (bc_bits p) = sbits w (firstn (N.to_nat cnt) stream) /\
+    wf_rec (first + Z.of_N spd)%Z r (skipn (N.to_nat cnt) stream)
+  end.
+
+Definition blocks_shape (first : Z) (blocks : list (Z * N * list N)) : Prop :=
+  forall k ts cnt p, nth_error blocks k = Some (ts, cnt, p) ->
+    ts = (first + Z.of_nat k * Z.of_N spd)%Z /\ (0 < cnt <= spd)%N /\
+    ((S k < length blocks)%nat -> cnt = spd) /\
+    N.of_nat (length p) = ((cnt * w + 7) / 8)%N /\ bytes_ok p.
+
+Lemma wf_rec_of_shape : forall blocks first stream,
+  blocks_shape first blocks -> flat_map (blk_bits w) blocks = sbits w stream ->
+  wf_rec first blocks stream.
+Proof.
+  induction blocks as [|[[ts cnt] p] r IH]; intros first stream Hsh Hbits.
+  - cbn in *. apply (f_equal (@length bool)) in Hbits. rewrite sbits_length in Hbits. cbn in Hbits.
+    destruct stream; [reflexivity|]. cbn [length] in Hbits. lia.
+  - destruct (Hsh 0%nat ts cnt p eq_refl) as (Hts & Hcnt & Hfull & Hlp & Hokp).
+    assert (Hcw : (cnt * w <= 8 * N.of_nat (length p))%N) by lia.
+    cbn [flat_map blk_bits] in Hbits.
+    assert (Hbl : length (firstn (N.to_nat (cnt * w)) (bc_bits p)) = N.to_nat (cnt * w)).
+    { rewrite firstn_length, bc_bits_length. lia. }
+    assert (Hlen : (N.to_nat cnt <= length stream)%nat).
+    { pose proof (f_equal (@length bool) Hbits) as HL. rewrite app_length, Hbl, sbits_length in HL.
+      assert (N.to_nat cnt * N.to_nat w <= length stream * N.to_nat w)%nat by lia.
+      apply Nat.mul_le_mono_pos_r in H; lia. }
+    pose proof (f_equal (firstn (N.to_nat (cnt * w))) Hbits) as H1.
+    pose proof (f_equal (skipn (N.to_nat (cnt * w))) Hbits) as H2.
+    rewrite <- Hbl in H1 at 1. rewrite firstn_app_len with (n := 0%nat) in H1 || (replace (length (firstn (N.to_nat (cnt * w)) (bc_bits p))) with (length (firstn (N.to_nat (cnt * w)) (bc_bits p)) + 0)%nat in H1 at 1 by lia; rewrite firstn_app_len in H1).
+    cbn [firstn] in H1. rewrite app_nil_r in H1.
+    rewrite <- Hbl in H2 at 1.
+    replace (length (firstn (N.to_nat (cnt * w)) (bc_bits p))) with (length (firstn (N.to_nat (cnt * w)) (bc_bits p)) + 0)%nat in H2 at 1 by lia.
+    rewrite skipn_app_len in H2. cbn [skipn] in H2.
+    rewrite N2Nat.inj_mul, <- sbits_firstn in H1. rewrite N2Nat.inj_mul, <- sbits_skipn in H2.
+    cbn [wf_rec]. split; [lia|]. split; [exact Hcnt|]. split.
+    { intros Hr. apply Hfull. destruct r; [contradiction|]. cbn [length]. lia. }
+    split; [exact Hcw|]. split; [exact Hokp|]. split; [exact Hlen|]. split; [rewrite N2Nat.inj_mul; exact H1|].
+    apply IH; [|exact H2].
+    intros k ts' c' p' Hk. destruct (Hsh (S k) ts' c' p' Hk) as (A1 & A2 & A3 & A4 & A5).
+    split; [lia|]. split; [exact A2|]. split; [|split; assumption].
+    intros Hlt. apply A3. cbn [length]. lia.
+Qed.
+
+Lemma find_block_spec : forall blocks first stream s,
+  wf_rec first blocks stream -> (s < length stream)%nat ->
+  exists ts cnt p o,
+    fp_find_block blocks (first + Z.of_nat s)%Z = Some (ts, cnt, p) /\
+    (first + Z.of_nat s = ts + Z.of_nat o)%Z /\ (o < N.to_nat cnt)%nat /\ (o <= s)%nat /\
+    (cnt * w <= 8 * N.of_nat (length p))%N /\ bytes_ok p /\
+    (s - o + N.to_nat cnt <= length stream)%nat /\
+    firstn (N.to_nat (cnt * w)) (bc_bits p) = sbits w (firstn (N.to_nat cnt) (skipn (s - o) stream)).
+Proof.
+  induction blocks as [|[[ts cnt] p] r IH]; intros first stream s Hwf Hs.
+  - cbn in Hwf. subst stream. cbn in Hs. lia.
+  - destruct Hwf as (Hts & Hcnt & Hfull & Hcw & Hokp & Hlen & Hbits & Hrest).
+    unfold fp_find_block. cbn [find].
+    destruct (lt_dec s (N.to_nat cnt)) as [Hin|Hout].
+    + destruct (Z.leb_spec ts (first + Z.of_nat s)); [|lia].
+      destruct (Z.ltb_spec (first + Z.of_nat s) (ts + Z.of_N cnt)); [|lia]. cbn [andb].
+      exists ts, cnt, p, s. split; [reflexivity|]. split; [lia|]. split; [exact Hin|]. split; [lia|].
+      split; [exact Hcw|]. split; [exact Hokp|]. replace (s - s)%nat with 0%nat by lia. cbn [skipn].
+      split; [lia|exact Hbits].
+    + assert (Hrne : r <> []).
+      { intros ->. cbn in Hrest. apply (f_equal (@length N)) in Hrest. rewrite skipn_length in Hrest. cbn in Hrest. lia. }
+      specialize (Hfull Hrne). subst cnt.
+      destruct (Z.ltb_spec (first + Z.of_nat s) (ts + Z.of_N spd)); [lia|].
+      rewrite andb_false_r.
+      destruct (IH (first + Z.of_N spd)%Z (skipn (N.to_nat spd) stream) (s - N.to_nat spd)%nat Hrest)
+        as (ts' & c' & p' & o & Hfind & Heq & Ho & Hos & Hcw' & Hok' & Hl' & Hb').
+      { rewrite skipn_length. lia. }
+      exists ts', c', p', o.
+      replace (first + Z.of_N spd + Z.of_nat (s - N.to_nat spd))%Z with (first + Z.of_nat s)%Z in * by lia.
+      split; [exact Hfind|]. split; [exact Heq|]. split; [exact Ho|]. split; [lia|].
+      split; [exact Hcw'|]. split; [exact Hok'|].
+      rewrite skipn_length in Hl'. split; [lia|].
+      rewrite Hb', skipn_add. do 3 f_equal. lia.
+Qed.
+
+Lemma rd_loop_spec : forall blocks first stream, wf_rec first blocks stream ->
+  forall fuel s len dst dst_bit,
+  (s + len <= length stream)%nat -> (len <= fuel)%nat ->
+  (dst_bit + N.of_nat len * w <= 8 * N.of_nat (length dst))%N ->
+  exists out, fp_rd_loop fuel w blocks (first + Z.of_nat s)%Z (Z.of_nat len) dst dst_bit = RD_ok out /\
+    length out = length dst /\ (bytes_ok dst -> bytes_ok out) /\
+    bc_bits out = firstn (N.to_nat dst_bit) (bc_bits dst) ++ sbits w (firstn len (skipn s stream))
+                  ++ skipn (N.to_nat (dst_bit + N.of_nat len * w)) (bc_bits dst).
+Proof.
+  intros blocks first stream Hwf. induction fuel as [|fuel IH]; intros s len dst dst_bit Hs Hfuel Hd.
+  - assert (len = 0)%nat by lia. subst len. exists dst. cbn [fp_rd_loop Z.of_nat Z.leb Z.compare].
+    split; [reflexivity|]. split; [reflexivity|]. split; [auto|].
+    cbn [firstn sbits flat_map app]. replace (dst_bit + N.of_nat 0 * w)%N with dst_bit by lia.
+    rewrite firstn_skipn. reflexivity.
+  - cbn [fp_rd_loop]. destruct (Z.leb_spec (Z.of_nat len) 0) as [Hl0|Hl0].
+    + assert (len = 0)%nat by lia. subst len. exists dst.
+      split; [reflexivity|]. split; [reflexivity|]. split; [auto|].
+      cbn [firstn sbits flat_map app]. replace (dst_bit + N.of_nat 0 * w)%N with dst_bit by lia.
+      rewrite firstn_skipn. reflexivity.
+    + destruct (find_block_spec blocks first stream s Hwf ltac:(lia))
+        as (ts & cnt & p & o & Hfind & Heq & Ho & Hos & Hcw & Hokp & Hl & Hb).
+      rewrite Hfind.
+      set (sid := (first + Z.of_nat s)%Z) in *.
+      set (idx := if (sid >? ts)%Z then (sid - ts)%Z else 0%Z).
+      assert (Hidx : idx = Z.of_nat o).
+      { subst idx. destruct (Z.gtb_spec sid ts); lia. }
+      set (sz0 := if (sid >? ts)%Z then (Z.of_N cnt - idx)%Z else Z.of_N cnt).
+      assert (Hsz0 : sz0 = (Z.of_N cnt - Z.of_nat o)%Z).
+      { subst sz0. rewrite Hidx. destruct (Z.gtb_spec sid ts); lia. }
+      set (sz := if (sz0 >? Z.of_nat len)%Z then Z.of_nat len else sz0).
+      set (szn := Nat.min (N.to_nat cnt - o) len).
+      assert (Hsz : sz = Z.of_nat szn).
+      { subst sz szn. rewrite Hsz0. destruct (Z.gtb_spec (Z.of_N cnt - Z.of_nat o) (Z.of_nat len)); lia. }
+      assert (Hszn : (1 <= szn /\ szn <= len /\ o + szn <= N.to_nat cnt)%nat) by (subst szn; lia).
+      destruct Hszn as (Hz1 & Hz2 & Hz3).
+      destruct (Z.leb_spec sz 0); [lia|].
+      set (a := N.of_nat o). set (z := N.of_nat szn).
+      replace (Z.to_N idx) with a by (subst a; lia). replace (Z.to_N sz) with z by (subst z; lia).
+      assert (Hm1 : (z * w <= N.of_nat len * w)%N) by (apply N.mul_le_mono_r; subst z; lia).
+      assert (Hm2 : ((a + z) * w <= cnt * w)%N) by (apply N.mul_le_mono_r; subst a z; lia).
+      rewrite N.mul_add_distr_r in Hm2.
+      destruct (bit_copy_spec dst dst_bit p (a * w) (z * w)) as (dst1 & Hcp & Hbits1 & Hlen1 & Hok1 & _); [lia | lia |].
+      rewrite Hcp.
+      assert (HX : firstn (N.to_nat (z * w)) (skipn (N.to_nat (a * w)) (bc_bits p))
+                   = sbits w (firstn szn (skipn s stream))).
+      { rewrite <- (firstn_skipn (N.to_nat (cnt * w)) (bc_bits p)). rewrite Hb.
+        rewrite !N2Nat.inj_mul. unfold a, z. rewrite !Nat2N.id.
+        rewrite slice_sbits by (rewrite firstn_length, skipn_length; lia).
+        f_equal. rewrite skipn_firstn_sub, firstn_firstn_le by lia. rewrite skipn_add.
+        do 2 f_equal. lia. }
+      rewrite HX in Hbits1.
+      destruct (IH (s + szn)%nat (len - szn)%nat dst1 (dst_bit + z * w)%N) as (out & Hrun & Hlo & Hoko & Hbo);
+        [lia | lia | |].
+      { rewrite Hlen1. assert (Hm3 : (N.of_nat (len - szn) * w = N.of_nat len * w - z * w)%N).
+        { replace (N.of_nat (len - szn)) with (N.of_nat len - z)%N by (subst z; lia). apply N.mul_sub_distr_r. }
+        lia. }
+      replace (sid + sz)%Z with (first + Z.of_nat (s + szn))%Z by (subst sid; lia).
+      replace (Z.of_nat len - sz)%Z with (Z.of_nat (len - szn)) by lia.
+      exists out. split; [exact Hrun|]. split; [lia|]. split; [intros Hbd; apply Hoko, Hok1; assumption|].
+      rewrite Hbo, Hbits1.
+      set (A := firstn (N.to_nat dst_bit) (bc_bits dst)).
+      set (X := sbits w (firstn szn (skipn s stream))).
+      assert (HA : length A = N.to_nat dst_bit) by (subst A; rewrite firstn_length, bc_bits_length; lia).
+      assert (HXl : length X = N.to_nat (z * w)).
+      { subst X. rewrite sbits_length, firstn_length, skipn_length, N2Nat.inj_mul. subst z. rewrite Nat2N.id. rewrite Nat.min_l by lia. reflexivity. }
+      assert (Hm3 : (N.of_nat (len - szn) * w = N.of_nat len * w - z * w)%N).
+      { replace (N.of_nat (len - szn)) with (N.of_nat len - z)%N by (subst z; lia). apply N.mul_sub_distr_r. }
+      replace (N.to_nat (dst_bit + z * w)) with (length A + length X)%nat by lia.
+      rewrite firstn_splice_prefix.
+      replace (N.to_nat (dst_bit + z * w + N.of_nat (len - szn) * w))
+        with (length A + (length X + N.to_nat (N.of_nat (len - szn) * w)))%nat by lia.
+      rewrite skipn_app_len, skipn_app_len, skipn_add.
+      rewrite <- !app_assoc. f_equal. rewrite app_assoc. f_equal.
+      * subst X. rewrite <- sbits_app. f_equal.
+        rewrite firstn_skipn_add. f_equal. lia.
+      * f_equal. lia.
+Qed.
+End Reader.
+Lemma skipn_repeat {A} : forall (x : A) k m, skipn k (repeat x m) = repeat x (m - k).
+Proof.
+  induction k as [|k IH]; intros m; [rewrite Nat.sub_0_r; reflexivity|].
+  destruct m as [|m]; [reflexivity|]. cbn [repeat skipn Nat.sub]. apply IH.
+Qed.
+
+Lemma firstn_app_exact {A} : forall (a b : list A), firstn (length a) (a ++ b) = a.
+Proof. intros. replace (length a) with (length a + 0)%nat by lia. rewrite firstn_app_len. cbn. apply app_nil_r. Qed.
+Lemma skipn_app_exact {A} : forall (a b : list A), skipn (length a) (a ++ b) = b.
+Proof. intros. replace (length a) with (length a + 0)%nat by lia. rewrite skipn_app_len. reflexivity. Qed.
+
+Lemma wf_rec_total : forall w spd blocks first stream, wf_rec w spd first blocks stream ->
+  fp_total blocks = N.of_nat (length stream).
+Proof.
+  intros w spd. induction blocks as [|[[ts cnt] p] r IH]; intros first stream Hwf.
+  - cbn in Hwf. subst. reflexivity.
+  - destruct Hwf as (_ & _ & _ & _ & _ & Hlen & _ & Hrest).
+    unfold fp_total in *. cbn [fold_right]. rewrite (IH _ _ Hrest), skipn_length. lia.
+Qed.
+
+(* reading any in-range window of well-formed blocks *)
+Lemma rd_blocks_spec_lemma : forall w spd first blocks stream start len dst,
+  (0 < w)%N -> (0 < spd)%N ->
+  (forall k ts cnt p, nth_error blocks k = Some (ts, cnt, p) ->
+     ts = (first + Z.of_nat k * Z.of_N spd)%Z /\ (0 < cnt <= spd)%N /\
+     ((S k < length blocks)%nat -> cnt = spd) /\
+     N.of_nat (length p) = ((cnt * w + 7) / 8)%N /\ Forall (fun b => (b < 256)%N) p) ->
+  flat_map (fun b => let '(_, cnt, p) := b in firstn (N.to_nat (cnt * w)) (bc_bits p)) blocks
+    = flat_map (bits_of (N.to_nat w)) stream ->
+  (0 <= start)%Z -> (0 < len)%Z -> (start + len <= Z.of_nat (length stream))%Z ->
+  (Z.to_N len * w <= 8 * N.of_nat (length dst))%N ->
+  exists out, fp_rd_blocks w first blocks start len dst = RD_ok out /\ length out = length dst /\
+    firstn (N.to_nat (Z.to_N len * w)) (bc_bits out)
+      = flat_map (bits_of (N.to_nat w)) (firstn (Z.to_nat len) (skipn (Z.to_nat start) stream)) /\
+    skipn (N.to_nat (Z.to_N len * w)) (bc_bits out) = skipn (N.to_nat (Z.to_N len * w)) (bc_bits dst) /\
+    (dst = repeat 0%N (N.to_nat ((Z.to_N len * w + 7) / 8)) ->
+     out = pack w (firstn (Z.to_nat len) (skipn (Z.to_nat start) stream))).
+Proof.
+  intros w spd first blocks stream start len dst Hw Hspd Hshape Hbits Hst Hlen Hrange Hdst.
+  assert (Hwf : wf_rec w spd first blocks stream) by (apply wf_rec_of_shape; assumption).
+  unfold fp_rd_blocks.
+  destruct (Z.leb_spec len 0); [lia|]. destruct (Z.ltb_spec start 0); [lia|].
+  rewrite (wf_rec_total _ _ _ _ _ Hwf).
+  destruct (Z.gtb_spec (start + len) (Z.of_N (N.of_nat (length stream)))); [lia|].
+  destruct (rd_loop_spec w spd Hw Hspd blocks first stream Hwf (Z.to_nat len) (Z.to_nat start) (Z.to_nat len) dst 0)
+    as (out & Hrun & Hlo & Hoko & Hbo); [lia | lia | lia |].
+  replace (first + Z.of_nat (Z.to_nat start))%Z with (start + first)%Z in Hrun by lia.
+  rewrite Z2Nat.id in Hrun by lia.
+  exists out. split; [exact Hrun|]. split; [exact Hlo|].
+  set (slice := firstn (Z.to_nat len) (skipn (Z.to_nat start) stream)) in *.
+  fold (sbits w slice) in *.
+  cbn [N.to_nat firstn app] in Hbo. replace (0 + N.of_nat (Z.to_nat len) * w)%N with (Z.to_N len * w)%N in Hbo by lia.
+  assert (Hsl : length (sbits w slice) = N.to_nat (Z.to_N len * w)).
+  { rewrite sbits_length. unfold slice. rewrite firstn_length, skipn_length, Nat.min_l by lia. lia. }
+  split; [|split].
+  - rewrite Hbo, <- Hsl. apply firstn_app_exact.
+  - rewrite Hbo, <- Hsl. apply skipn_app_exact.
+  - intros Hz. destruct (pack_spec w slice) as (pad & Hpad & Hpb & Hpok).
+    apply bc_bits_inj; [apply Hoko; rewrite Hz; apply bytes_ok_repeat; lia | exact Hpok |].
+    rewrite Hbo, Hpb. f_equal. rewrite Hz, bc_bits_repeat0, skipn_repeat. f_equal.
+    pose proof (f_equal (@length bool) Hpb) as HL.
+    rewrite bc_bits_length, app_length, repeat_length, Hsl in HL.
+    pose proof (pack_length w slice) as HPL.
+    assert (Hsll : N.of_nat (length slice) = Z.to_N len).
+    { unfold slice. rewrite firstn_length, skipn_length, Nat.min_l by lia. lia. }
+    rewrite Hsll in HPL. lia.
+Qed.
+(* ------------------------------------------------------------------ *)
+(* writer + reader against Spec.rd_window                              *)
+(* ------------------------------------------------------------------ *)
+Lemma fsr_write_def : forall s sid l, ss_def (fsr_write s sid l) = ss_def s.
+Proof. intros s sid l. unfold fsr_write. destruct l; [reflexivity|]. destruct (ss_first s); reflexivity. Qed.
+
+Lemma fold_fsr_write_def : forall calls s,
+  ss_def (fold_left (fun s c => fsr_write s (fst c) (snd c)) calls s) = ss_def s.
+Proof. induction calls as [|c r IH]; intros s; [reflexivity|]. cbn [fold_left]. rewrite IH. apply fsr_write_def. Qed.
+
+Lemma pack_roundtrip_lemma : forall dt spd buf0 d calls,
+  In dt fp_dt_list -> sg_dtype d = dt ->
+  (0 < spd)%N -> ((spd * dt_bits dt) mod 8 = 0)%N -> (spd * dt_bits dt + 7 < 4294967296)%N ->
+  (8 * N.of_nat (length buf0) = spd * dt_bits dt)%N -> Forall (fun b => (b < 256)%N) buf0 ->
+  Forall (fun c => (N.of_nat (length (snd c)) < 4294967296)%N) calls ->
+  let w := dt_bits dt in
+  let s := fold_left (fun s c => fsr_write s (fst c) (snd c)) calls (new_sig d) in
+  exists st, fp_write_all dt spd buf0 calls = FP_ok st /\
+    fp_total (fp_blocks st) = rd_length s /\
+    forall start count, (0 < count)%N ->
+      match rd_window s start count with
+      | Some win =>
+        fp_rd_blocks w (rd_offset s) (fp_blocks st) (Z.of_N start) (Z.of_N count)
+                     (repeat 0%N (N.to_nat ((count * w + 7) / 8))) = RD_ok win /\
+        forall dst, (count * w <= 8 * N.of_nat (length dst))%N ->
+          exists out, fp_rd_blocks w (rd_offset s) (fp_blocks st) (Z.of_N start) (Z.of_N count) dst = RD_ok out /\
+            length out = length dst /\
+            firstn (N.to_nat (count * w)) (bc_bits out) = firstn (N.to_nat (count * w)) (bc_bits win) /\
+            skipn (N.to_nat (count * w)) (bc_bits out) = skipn (N.to_nat (count * w)) (bc_bits dst)
+      | None => forall dst, fp_rd_blocks w (rd_offset s) (fp_blocks st) (Z.of_N start) (Z.of_N count) dst = RD_param_invalid
+      end.
+Proof.
+  intros dt spd buf0 d calls Hin Hd Hspd Hmul Hbnd Hbuf Hok Hcalls w s.
+  destruct (blocks_stream_lemma dt spd buf0 d calls Hin Hd Hspd Hmul Hbnd Hbuf Hok Hcalls)
+    as (st & Hrun & Hbits & Htot & Hnone & Hfirst & Hshape).
+  fold w s in Hbits, Htot, Hnone, Hfirst, Hshape.
+  exists st. split; [exact Hrun|]. split; [exact Htot|].
+  intros start count Hc. unfold rd_window, rd_length.
+  assert (Hsdt : dt_bits (sg_dtype (ss_def s)) = w).
+  { unfold s. rewrite fold_fsr_write_def. cbn [new_sig ss_def]. rewrite Hd. reflexivity. }
+  rewrite Hsdt.
+  destruct (N.leb_spec (start + count) (N.of_nat (length (ss_samples s)))) as [Hin_range|Hout].
+  - destruct (ss_first s) as [first|] eqn:Efirst.
+    2:{ destruct (Hnone eq_refl) as (_ & Hsam). rewrite Hsam in Hin_range. cbn in Hin_range. lia. }
+    assert (Hoff : rd_offset s = first) by (unfold rd_offset; rewrite Efirst; reflexivity).
+    rewrite Hoff.
+    assert (Hw : (0 < w)%N) by (destruct (dt_fill_ok_all dt Hin) as (H & _); exact H).
+    assert (Hsh : forall k ts cnt p, nth_error (fp_blocks st) k = Some (ts, cnt, p) ->
+       ts = (first + Z.of_nat k * Z.of_N spd)%Z /\ (0 < cnt <= spd)%N /\
+       ((S k < length (fp_blocks st))%nat -> cnt = spd) /\
+       N.of_nat (length p) = ((cnt * w + 7) / 8)%N /\ Forall (fun b => (b < 256)%N) p).
+    { intros k ts cnt p Hk. destruct (Hshape k ts cnt p Hk) as (H1 & H2 & H3 & H4 & H5 & _).
+      inversion H1. split; [lia|]. auto. }
+    set (slice := firstn (N.to_nat count) (skipn (N.to_nat start) (ss_samples s))).
+    assert (Hrd : forall dst, (count * w <= 8 * N.of_nat (length dst))%N ->
+      exists out, fp_rd_blocks w first (fp_blocks st) (Z.of_N start) (Z.of_N count) dst = RD_ok out /\ length out = length dst /\
+        firstn (N.to_nat (count * w)) (bc_bits out) = sbits w slice /\
+        skipn (N.to_nat (count * w)) (bc_bits out) = skipn (N.to_nat (count * w)) (bc_bits dst) /\
+        (dst = repeat 0%N (N.to_nat ((count * w + 7) / 8)) -> out = pack w slice)).
+    { intros dst Hdst.
+      destruct (rd_blocks_spec_lemma w spd first (fp_blocks st) (ss_samples s) (Z.of_N start) (Z.of_N count) dst
+                  Hw Hspd Hsh Hbits ltac:(lia) ltac:(lia) ltac:(lia)) as (out & H1 & H2 & H3 & H4 & H5).
+      { rewrite N2Z.id. exact Hdst. }
+      rewrite !N2Z.id in H3, H4, H5.
+      replace (Z.to_nat (Z.of_N count)) with (N.to_nat count) in H3, H5 by lia.
+      replace (Z.to_nat (Z.of_N start)) with (N.to_nat start) in H3, H5 by lia.
+      exists out. auto. }
+    split.
+    + destruct (Hrd (repeat 0%N (N.to_nat ((count * w + 7) / 8)))) as (out & H1 & _ & _ & _ & H5).
+      { rewrite repeat_length. lia. }
+      rewrite H1, (H5 eq_refl). reflexivity.
+    + intros dst Hdst. destruct (Hrd dst Hdst) as (out & H1 & H2 & H3 & H4 & _).
+      exists out. split; [exact H1|]. split; [exact H2|]. split; [|exact H4].
+      rewrite H3. destruct (pack_spec w slice) as (pad & _ & Hpb & _). fold slice. rewrite Hpb.
+      assert (Hsl : length (sbits w slice) = N.to_nat (count * w)).
+      { rewrite sbits_length. unfold slice. rewrite firstn_length, skipn_length, Nat.min_l by lia. lia. }
+      rewrite <- Hsl. symmetry. apply firstn_app_exact.
+  - intros dst. unfold fp_rd_blocks. rewrite Htot.
+    destruct (Z.leb_spec (Z.of_N count) 0); [lia|]. destruct (Z.ltb_spec (Z.of_N start) 0); [lia|].
+    destruct (Z.gtb_spec (Z.of_N start + Z.of_N count) (Z.of_N (N.of_nat (length (ss_samples s))))); [reflexivity|lia].
+Qed.
+(* ------------------------------------------------------------------ *)
+(* satisfiability of the hypotheses, on concrete non-trivial runs      *)
+(* ------------------------------------------------------------------ *)
+Definition ex_sigdef (dt : N) : sigdef :=
+  {| sg_id := 1; sg_src := 1; sg_type := JLS_SIGNAL_TYPE_FSR; sg_dtype := dt; sg_rate := 1000;
+     sg_spd := 64; sg_sdf := 64; sg_eps := 64; sg_sumdf := 64; sg_adf := 100; sg_udf := 100;
+     sg_name := SNull; sg_units := SNull |}.
+
+(* u4, block of 64 samples = 32 bytes with garbage initial content, first id 5, an overlap
+   (second call repeats two samples), a gap of 66 samples crossing the block boundary *)
+Example pack_roundtrip_example_u4 :
+  let dt := JLS_DATATYPE_U4 in let spd := 64%N in let buf0 := repeat 165%N 32 in
+  let calls := [(5%Z, [1; 2; 3]%N); (6%Z, [9; 9; 4; 5]%N); (76%Z, [6; 7; 8]%N)] in
+  let s := fold_left (fun s c => fsr_write s (fst c) (snd c)) calls (new_sig (ex_sigdef dt)) in
+  In dt fp_dt_list /\ (0 < spd)%N /\ ((spd * dt_bits dt) mod 8 = 0)%N /\ (spd * dt_bits dt + 7 < 4294967296)%N /\
+  (8 * N.of_nat (length buf0) = spd * dt_bits dt)%N /\ Forall (fun b => (b < 256)%N) buf0 /\
+  Forall (fun c => (N.of_nat (length (snd c)) < 4294967296)%N) calls /\
+  ss_first s = Some 5%Z /\ rd_length s = 74%N /\
+  exists st win, fp_write_all dt spd buf0 calls = FP_ok st /\
+    map (fun b => (fst (fst b), snd (fst b))) (fp_blocks st) = [(5%Z, 64%N); (69%Z, 10%N)] /\
+    rd_window s 3 71 = Some win /\ length win = 36%nat /\
+    fp_rd_blocks 4 5 (fp_blocks st) 3 71 (repeat 0%N 36) = RD_ok win.
+Proof.
+  cbv zeta. split; [cbn; tauto|]. split; [reflexivity|]. split; [reflexivity|]. split; [reflexivity|].
+  split; [reflexivity|]. split; [apply bytes_ok_repeat; reflexivity|].
+  split; [repeat constructor|]. split; [reflexivity|]. split; [reflexivity|].
+  eexists. eexists. split; [vm_compute; reflexivity|]. split; [vm_compute; reflexivity|].
+  split; [vm_compute; reflexivity|]. split; vm_compute; reflexivity.
+Qed.
+
+(* f32 with a gap: the gap reads back as quiet NaN *)
+Example pack_roundtrip_example_f32 :
+  let dt := JLS_DATATYPE_F32 in let spd := 8%N in let buf0 := repeat 0%N 32 in
+  let calls := [(0%Z, [1065353216]%N); (3%Z, [1073741824]%N)] in
+  let s := fold_left (fun s c => fsr_write s (fst c) (snd c)) calls (new_sig (ex_sigdef dt)) in
+  ss_samples s = [1065353216; 2143289344; 2143289344; 1073741824]%N /\
+  exists st win, fp_write_all dt spd buf0 calls = FP_ok st /\ rd_window s 0 4 = Some win /\
+    fp_rd_blocks 32 0 (fp_blocks st) 0 4 (repeat 0%N 16) = RD_ok win.
+Proof.
+  cbv zeta. split; [reflexivity|]. eexists. eexists.
+  split; [vm_compute; reflexivity|]. split; vm_compute; reflexivity.
+Qed.
+
+(* ------------------------------------------------------------------ *)
+(* a data type the writer accepts but fills wrongly                    *)
+(* ------------------------------------------------------------------ *)
+(* jls_core_signal_def_validate (and Spec.dt_valid) look at data_type & 0xffff and the q field only, so
+   data_type = 0x01002004 (f32 with a bit set in the reserved top byte) is accepted; the gap branch of
+   jls_wr_fsr_data compares data_type == JLS_DATATYPE_F32 exactly and falls to the integer branch: the
+   gap is filled with 0.0 instead of NaN.  Hence the guard [In dt fp_dt_list] of blocks_stream. *)
+Lemma blocks_stream_refuted_reserved_dt_bits :
+  exists dt spd buf0 calls,
+    dt_valid dt = true /\ dt_is_float dt = true /\
+    (0 < spd)%N /\ ((spd * dt_bits dt) mod 8 = 0)%N /\ (spd * dt_bits dt + 7 < 4294967296)%N /\
+    (8 * N.of_nat (length buf0) = spd * dt_bits dt)%N /\ Forall (fun b => (b < 256)%N) buf0 /\
+    Forall (fun c => (N.of_nat (length (snd c)) < 4294967296)%N) calls /\
+    let w := dt_bits dt in
+    let s := fold_left (fun s c => fsr_write s (fst c) (snd c)) calls (new_sig (ex_sigdef dt)) in
+    exists st, fp_write_all dt spd buf0 calls = FP_ok st /\
+      flat_map (fun b => let '(_, cnt, p) := b in firstn (N.to_nat (cnt * w)) (bc_bits p)) (fp_blocks st)
+        <> flat_map (bits_of (N.to_nat w)) (ss_samples s).
+Proof.
+  exists 16785412%N, 8%N, (repeat 0%N 32), [(0%Z, [1065353216]%N); (2%Z, [1073741824]%N)].
+  split; [reflexivity|]. split; [reflexivity|]. split; [reflexivity|]. split; [reflexivity|]. split; [reflexivity|].
+  split; [reflexivity|]. split; [apply bytes_ok_repeat; reflexivity|]. split; [repeat constructor|].
+  cbv zeta. eexists. split; [vm_compute; reflexivity|].
+  vm_compute. intro H. discriminate H.
+Qed.
